@@ -1,10 +1,14 @@
 (* C16 driver: runs the extracted Lru model on the case lines written by the harness.
    case:  <id> <cap> (i <k> <v> <h> | g <k> <h>)*
-   out:   <id> (N | <v>)* util=<occupied/len reduced> *)
+   out:   <id> (N | <v>)* util=<occupied/len reduced>
+   S / K cases print a fixed token (oracle-only in the harness), P cases the pool of the builder model *)
 let () =
   List.iter (fun line ->
     match split_ws line with
     | id :: "S" :: _ -> print_endline (id ^ " sdd")   (* SDD caches: decided by the harness oracle and by C03's theorems *)
+    | id :: "K" :: _ -> print_endline (id ^ " soak")  (* soak (K <cap> <nkeys> <nops> <seed>): a ~10^6-operation history on a table of 2^16..2^18
+                                                         slots; the list-based extracted model cannot follow it, so these cases are ORACLE-ONLY
+                                                         (latest-value-per-key oracle in c16.rs); C16_lru_spec covers every capacity *)
     | id :: "P" :: toks ->
       (* builder level: the model's result is the same for every cache behaviour (theorem
          C16_cache_transparent); run it with two different forgetting streams as a sanity test *)
